@@ -73,7 +73,7 @@ def finalize(agg, tier):
              "cfb_segment_sizes_AES_16", "cfb_segment_sizes_64bit_8", "ctr_counter_little_endian", "ctr_counter_suffix",
              "ctr_initial_bytes", "ctr_initial_int", "gcm_nonce_not_96", "gcm_nonce_96", "ccm_aad_header_6", "ccm_aad_header_2",
              "ccm_declared", "ccm_undeclared", "siv_no_nonce", "siv_nonce", "chacha_seek", "chacha_walks", "chacha_walk_seek:+2^32-blocks",
-             "chacha_walk_seek:same-block", "arc4_drop", "bulk_cases", "decoy_objects", "decoy_objects:toggle-param",
+             "chacha_walk_seek:same-block", "chacha_walk_seek:last-block-before-a-multiple-of-2^32", "arc4_drop", "bulk_cases", "decoy_objects", "decoy_objects:toggle-param",
              "decoy_objects:other-iv", "decoy_objects:ecb-same-key"]
     for m in ("CBC", "CFB", "OFB", "CTR", "OPENPGP", "GCM", "CCM", "EAX", "OCB", "CHACHA20_POLY1305", "Salsa20", "ChaCha20"):
         need.append("libchosen:" + m)
@@ -1153,12 +1153,15 @@ def chacha_walk(ctx, key, nonce):
         if step == 0 or rng.random() < 0.7:
             blk = pos // 64
             kind = rng.choice(["same-block", "same-block", "next-block", "prev-block", "+2^32-blocks", "-2^32-blocks", "+2^16-blocks",
-                               "+2^8-blocks", "k*2^32-blocks", "zero", "random", "same-position"])
+                               "+2^8-blocks", "k*2^32-blocks", "zero", "random", "same-position", "last-block-before-a-multiple-of-2^32",
+                               "last-block-before-a-multiple-of-2^32"])
             off = rng.choice([0, 1, 10, 63, pos % 64])
             nb = {"same-block": blk, "next-block": blk + 1, "prev-block": blk - 1, "+2^32-blocks": blk + (1 << 32),
                   "-2^32-blocks": blk - (1 << 32), "+2^16-blocks": blk + (1 << 16), "+2^8-blocks": blk + 256,
                   "k*2^32-blocks": (blk & 0xFFFFFFFF) + (rng.randrange(1 << 32) << 32), "zero": 0,
-                  "random": rng.randrange(nblocks), "same-position": blk}[kind]
+                  "random": rng.randrange(nblocks), "same-position": blk,
+                  # the key stream then runs ACROSS the multiple (carry from the low into the high counter word)
+                  "last-block-before-a-multiple-of-2^32": (((blk >> 32) + rng.choice([1, 1, 2, 1 << 20])) << 32) - rng.choice([1, 1, 2])}[kind]
             if kind == "same-position":
                 off = pos % 64
             if not 0 <= nb < nblocks - 8:
@@ -1174,7 +1177,7 @@ def chacha_walk(ctx, key, nonce):
             hist.append(("seek", kind, pos))
             ctx.count("chacha_walk_seeks")
             ctx.count("chacha_walk_seek:" + kind)
-        n = rng.choice([0, 1, 5, 30, 63, 64, 65, 130])
+        n = rng.choice([0, 1, 5, 30, 63, 64, 65, 130, 200])
         m = rng.randbytes(n)
         try:
             ct = c.encrypt(m)
